@@ -28,6 +28,7 @@
 -/
 import QKV.Lemmas.Sched
 import QKV.Lemmas.Rnd
+import QKV.Lemmas.Pow2
 namespace QKV.Props.C07
 open QKV QKV.QNoise QKV.Sched
 
@@ -106,6 +107,119 @@ theorem C07_mix_storage_noste_partial (rd : Rnd) (s q v : ℚ)
   simp [mixF, mixNoSteF, Store.oneMinus, Store.asF, h]
 
 example (v : ℚ) : Rnd.exact.r32 (Rnd.exact.r64 (1 - v)) = Rnd.exact.r32 (1 - Rnd.exact.r32 v) := rfl
+
+/-! ## 1b. quantized_relu in full: `x_u`, `xq`, the `relu_upper_bound` pass, then the mix
+
+  (strengthening round, seed C07-6)  `reluNoise` = the whole `quantized_relu.__call__` for every
+  `bits`, `integer`, leaky slope `2^-k`, `relu_upper_bound` (on or off the quantization grid) and
+  `is_quantized_clip`. -/
+
+/-- the whole call interpolates between its unquantized activation and its quantized value -/
+theorem C07_relu_interpolates (t : Tie) (c : ReluCfg) (f : ℚ) (useSte : Bool) (x : ℚ) :
+    reluNoise t c f useSte x = c.act x + f * (qreluU t c x - c.act x) :=
+  C07_mix _ _ _ _
+
+/-- `f = 0` returns the unquantized activation, `f = 1` the fully quantized value (which respects
+    `relu_upper_bound`) -/
+theorem C07_relu_f0_f1 (t : Tie) (c : ReluCfg) (useSte : Bool) (x : ℚ) :
+    reluNoise t c 0 useSte x = c.act x ∧ reluNoise t c 1 useSte x = qreluU t c x :=
+  ⟨(C07_f0 _ _ _).1, (C07_f1 _ _ _).1⟩
+
+/-- the clause the harness judges on the real outputs: `out(f) = out(0) + f·(out(1) − out(0))` -/
+theorem C07_relu_affine_in_f (t : Tie) (c : ReluCfg) (f : ℚ) (useSte : Bool) (x : ℚ) :
+    reluNoise t c f useSte x =
+      reluNoise t c 0 useSte x + f * (reluNoise t c 1 useSte x - reluNoise t c 0 useSte x) := by
+  rw [(C07_relu_f0_f1 t c useSte x).1, (C07_relu_f0_f1 t c useSte x).2]
+  exact C07_relu_interpolates t c f useSte x
+
+/-- with an active `relu_upper_bound` (not `is_quantized_clip`) the unquantized activation is
+    below the bound … -/
+theorem C07_relu_act_le_bound (c : ReluCfg) (ub : ℚ) (hc : c.clamp = some ub) (h0 : 0 ≤ ub) (x : ℚ) :
+    c.act x ≤ ub := by
+  unfold ReluCfg.clamp at hc
+  cases hq : c.qclip
+  · rw [hq] at hc
+    cases hu : c.upper with
+    | none => rw [hu] at hc; simp at hc
+    | some u =>
+      rw [hu] at hc
+      by_cases h : u = 0
+      · simp [h] at hc
+      · simp only [Bool.false_eq_true, if_false, h] at hc
+        cases hc
+        simp only [ReluCfg.act, hq, Bool.false_eq_true, if_false, hu]
+        split
+        · rename_i hx
+          unfold ReluCfg.lrelu
+          split
+          · rename_i hneg
+            have hs : 0 ≤ c.slope := by
+              unfold ReluCfg.slope
+              cases c.slopeLog with
+              | none => exact le_refl _
+              | some k => exact le_of_lt (QKV.pow2_pos _)
+            nlinarith
+          · exact hx
+        · exact le_refl _
+  · rw [hq] at hc; simp at hc
+
+/-- … so for `f ∈ [0,1]` the mixed output already respects the bound: no clip of the result is
+    needed (and none is applied by the code) -/
+theorem C07_relu_bounded (t : Tie) (c : ReluCfg) (ub f : ℚ) (useSte : Bool) (x : ℚ)
+    (hc : c.clamp = some ub) (hub : 0 ≤ ub) (h0 : 0 ≤ f) (h1 : f ≤ 1) :
+    reluNoise t c f useSte x ≤ ub := by
+  have hs := C07_relu_act_le_bound c ub hc hub x
+  have hq : qreluU t c x ≤ ub := by
+    unfold qreluU
+    rw [hc]
+    simp only [clampTo]
+    split
+    · assumption
+    · exact le_refl _
+  have := (C07_mix_between (c.act x) (qreluU t c x) f useSte h0 h1).2
+  exact le_trans this (max_le hs hq)
+
+/-- where clipping the mixed result instead would give the same value: at `f = 0`, at `f = 1`,
+    and wherever the bound does not cut the quantized value -/
+theorem C07_relu_clamp_order_agree (t : Tie) (c : ReluCfg) (ub f : ℚ) (useSte : Bool) (x : ℚ)
+    (hc : c.clamp = some ub) (hub : 0 ≤ ub) (h0 : 0 ≤ f) (h1 : f ≤ 1)
+    (h : f = 0 ∨ f = 1 ∨ qrelu t c x ≤ ub) :
+    reluNoiseClampAfter t c f useSte x = reluNoise t c f useSte x := by
+  have hs := C07_relu_act_le_bound c ub hc hub x
+  unfold reluNoiseClampAfter reluNoise qreluU
+  rw [hc]
+  rcases h with h | h | h
+  · subst h
+    rw [(C07_f0 _ _ _).1, (C07_f0 _ _ _).1]
+    simp [clampTo, hs]
+  · subst h
+    rw [(C07_f1 _ _ _).1, (C07_f1 _ _ _).1]
+  · have hq : clampTo (some ub) (qrelu t c x) = qrelu t c x := by simp [clampTo, h]
+    rw [hq]
+    have := (C07_mix_between (c.act x) (qrelu t c x) f useSte h0 h1).2
+    have hle : mix (c.act x) (qrelu t c x) f useSte ≤ ub := le_trans this (max_le hs h)
+    simp [clampTo, hle]
+
+/-- the order matters: `quantized_relu(2, 2, relu_upper_bound=2.6, is_quantized_clip=False)` (the
+    bound is the float32 nearest 2.6, off the grid of step 1), `x = 2.5625`, `f = 1/2`: the call
+    gives the interpolation `x_u + f·(xq − x_u)` with `xq = min(3, ub) = ub`, whereas clipping the
+    mixed result gives the bound itself — which is not between-by-`f` its own `f = 0` and `f = 1`
+    values (seed C07-6). -/
+theorem C07_relu_clamp_after_mix_counterexample :
+    let ub : ℚ := 5452595 / 2097152
+    let c : ReluCfg := { bits := 2, integer := 2, slopeLog := none, upper := some ub, qclip := false }
+    c.act (41/16) = 41/16 ∧ qrelu .even c (41/16) = 3 ∧ qreluU .even c (41/16) = ub ∧
+    reluNoise .even c (1/2) true (41/16) = (41/16 + ub) / 2 ∧
+    reluNoiseClampAfter .even c (1/2) true (41/16) = ub ∧
+    reluNoiseClampAfter .even c (1/2) true (41/16) ≠
+      reluNoiseClampAfter .even c 0 true (41/16) +
+        (1/2) * (reluNoiseClampAfter .even c 1 true (41/16) - reluNoiseClampAfter .even c 0 true (41/16)) := by
+  refine ⟨by decide +kernel, by decide +kernel, by decide +kernel, by decide +kernel, by decide +kernel,
+    by decide +kernel⟩
+
+/-- non-vacuity of the hypotheses of `C07_relu_bounded` / `C07_relu_clamp_order_agree` -/
+example : ({ bits := 4, integer := 1, slopeLog := some 2, upper := some (29/20), qclip := false } : ReluCfg).clamp
+    = some (29/20) := by decide +kernel
 
 /-! ## 2. storage of the factor: python float vs tf.Variable, build / update in any order -/
 
